@@ -2,6 +2,7 @@ import Revm.Model.Evm
 import Revm.Proofs.Evm
 import Revm.Proofs.EvmStepTable
 import Revm.Proofs.EvmHost
+import Revm.Proofs.EvmSpec
 /-! C01 — "For every pre-state, block environment, valid transaction and hardfork from Frontier to Prague, executing the
 transaction yields the same outcome class, the same gas used, the same return data and logs, and the same post-state as
 the Ethereum execution specification."
@@ -36,9 +37,10 @@ example : ∃ r, transact 10
   Proofs.Evm.exists_of_isOk (by decide +kernel)
 
 /-- the frame loop alone: more fuel never changes a completed run -/
-theorem runLoop_fuel_independent (cfg : Cfg) {n m : Nat} (h : n ≤ m) (stack : List Frame) (w : World)
-    (r : Interp.ChildResult × World) (hr : runLoop cfg n stack w = .ok r) : runLoop cfg m stack w = .ok r :=
-  Proofs.Evm.runLoop_mono cfg h hr
+theorem runLoop_fuel_independent {κ : Type} (C : CpOps κ) (cfg : Cfg) {n m : Nat} (h : n ≤ m)
+    (stack : List (Frame κ)) (w : World) (r : Interp.ChildResult × World)
+    (hr : runLoop C cfg n stack w = .ok r) : runLoop C cfg m stack w = .ok r :=
+  Proofs.Evm.runLoop_mono C cfg h hr
 
 /-! ## gas of the transaction handler -/
 
@@ -172,5 +174,49 @@ example : ∃ r, answer { blockNumber := 1 }
       pre := [{ addr := 0xaa, balance := 7, nonce := 0, code := [], codeHash := Evm.KECCAK_EMPTY, storage := [] }] }
     (.balance 0xaa) = .ok r :=
   Proofs.Evm.exists_of_isOk (by decide +kernel)
+
+
+/-! ## the closed statement, and what is proved of it
+
+`Spec.Evm.transact` is the transaction of the execution specification as far as this development states it: the
+instruction semantics, host effects, message-call / creation rules and transaction handler of `Evm.transactWith`, run
+with the specification's state discipline — every subroutine SAVES the state it starts from and a failing one RESTORES
+it (EELS `begin_transaction` / `rollback_transaction`), accessed sets, transient storage and logs included — instead of
+the code's journal of undo entries. The statement: for every pre-state, oracle, environment, transaction and SpecId,
+the model (= the code, by correspondence) and the specification yield the same outcome class, gas used, refund, return
+data, created address, logs and post-state of the touched accounts. -/
+
+open Revm.Spec.Evm in
+def FullStatement_transact_refines_spec : Prop :=
+  ∀ (fuel spec : Nat) (pre : List PreAcct) (dbHasStorage : Bool) (oracle : List PcAnswer) (e : Evm.Env),
+    ObsEq (Evm.transact fuel (freshWorld spec pre dbHasStorage oracle) e spec)
+          (Spec.Evm.transact fuel (freshWorld spec pre dbHasStorage oracle) e spec)
+
+open Revm.Spec.Evm in
+/-- PROVED of `FullStatement_transact_refines_spec`:
+* here: every transaction that validation does not accept (rejected, or failing before execution) — for every world, not
+  only fresh ones;
+* `step_*_agrees`: the pure instruction families are the Yellow-Paper rules (`Spec/EvmRules.lean`), with the `Spec.Arith`
+  meaning of the word operations;
+* `host_*_agrees`: the state-reading host answers are those of the abstract (journal-free) state;
+* `transact_gas_bounds`: the handler's gas arithmetic after the first frame;
+* `transact_fuel_independent`: both sides are independent of the fuel once it suffices.
+MISSING for the full statement: (1) `journal revert = snapshot restore` under the observation (C06's revert theorem —
+stated there, being proved separately) lifted through the frame machine by a simulation over `CpOps`; (2) the CALL /
+CREATE gas bookkeeping across frames (63/64 rule, stipend, returned gas) against an EELS-style rule — here both sides
+share it; (3) precompile internals and signature recovery, which are oracle inputs on both sides. The statement itself
+is exercised on every transaction of the correspondence stream and on every shipped reference vector: the driver prints
+the specification's answer next to the model's (Spec column), and `./check` compares the implementation with both. -/
+theorem transact_refines_spec_partial (fuel : Nat) (w : World) (e : Evm.Env) (spec : Nat)
+    (h : ∀ x, preverify w e (GasCalc.canon spec) ≠ .ok (some x)) :
+    ObsEq (Evm.transact fuel w e spec) (Spec.Evm.transact fuel w e spec) :=
+  Proofs.Evm.refines_spec_of_not_accepted fuel w e spec h
+
+/-- the hypothesis is satisfiable: a transaction whose gas limit is below the intrinsic cost is not accepted -/
+example : ∃ (w : World) (e : Evm.Env), ∀ x, preverify w e (GasCalc.canon 17) ≠ .ok (some x) :=
+  ⟨Spec.Evm.freshWorld 17 [] true [],
+   { block := { gasLimit := 30000000, prevrandao := some 0, blobGasPrice := some 1 },
+     tx := { caller := 0xaa, gasLimit := 20999, to := some 0xbb } },
+   Proofs.Evm.ne_some_of_notAccepted (by decide +kernel)⟩
 
 end Revm.Props.C01
